@@ -148,6 +148,11 @@ pub fn c20_serde(c: &mut Ctx, a: W) {
     expect_de(c, "serde/malformed", "missing hi", &ins, a, guard(|| de_map(vec![("lo", a.1)])), false);
     expect_de(c, "serde/malformed", "duplicate hi", &ins, a, guard(|| de_map(vec![("hi", a.0), ("hi", a.0), ("lo", a.1)])), false);
     expect_de(c, "serde/malformed", "duplicate lo", &ins, a, guard(|| de_map(vec![("hi", a.0), ("lo", a.1), ("lo", a.1)])), false);
+    for special in [f64::NAN, 0.0, f64::INFINITY, -0.0] {
+        expect_de(c, "serde/malformed", "duplicate hi (special first)", &ins, a, guard(|| de_map(vec![("hi", special), ("hi", a.0), ("lo", a.1)])), false);
+        expect_de(c, "serde/malformed", "duplicate lo (special first)", &ins, a, guard(|| de_map(vec![("hi", a.0), ("lo", special), ("lo", a.1)])), false);
+        expect_de(c, "serde/malformed", "duplicate lo (special last)", &ins, a, guard(|| de_map(vec![("lo", a.1), ("hi", a.0), ("lo", special)])), false);
+    }
     expect_de(c, "serde/malformed", "unknown field", &ins, a, guard(|| de_map(vec![("hi", a.0), ("lo", a.1), ("x", 0.0)])), false);
     expect_de(c, "serde/malformed", "unknown field first", &ins, a, guard(|| de_map(vec![("mid", 0.0), ("hi", a.0), ("lo", a.1)])), false);
     // near-miss field names and non-string field identifiers are unknown fields too
